@@ -1,10 +1,29 @@
-import Driver.Util
+import Driver.Stor
 
-/-! Placeholder: the line-protocol driver of domain C03 is not written yet. -/
+/-! Driver for domain C03 (compaction): see `Driver/Stor.lean`.  Facts arrive as `name=yes|no`. -/
 namespace Driver.C03
+open Hv.Storage Driver.Stor
 
-def run (_args : List String) : IO UInt32 := do
-  IO.eprintln "drv: domain C03 has no driver yet"
-  return 2
+def findingId (s : DS) : String :=
+  match s.staleEp with
+  | some ep => s!"C03-{ep}-stale-temp"
+  | none => if s.cfg.closeFsyncs then "C03-crash-not-atomic" else "C03-rename-without-fsync"
+
+def hooks : Hooks where
+  -- crash points are taken inside compactions only: everything written so far is durable
+  expectAt := fun s _ _ => s.spec
+  flagImg := fun s ev _ _ _ => if ev.cOk && ev.aOk then "" else "\t#F:" ++ findingId s
+  flagLoad := fun s st => if sameIndex st s.spec then "" else "\t#F:" ++ findingId s
+
+def cfgOfArgs (kv : List (String × String)) : Cfg :=
+  { r := ⟨boolArg kv "shortHeaderIsEOF", boolArg kv "tornDataIsEOF", false⟩,
+    syncFsyncs := true, closeFsyncs := boolArg kv "closeFsyncs", truncatesTornTail := false,
+    loadCleansTemp := boolArg kv "loadCleansTemp", rmTempLocked := boolArg kv "rmTempLocked",
+    rmTempFromIndex := boolArg kv "rmTempFromIndex", rmTempCompactor := boolArg kv "rmTempCompactor" }
+
+def run (args : List String) : IO UInt32 := do
+  let kv := parseArgs args
+  lineLoop (step hooks) { cfg := cfgOfArgs kv }
+  return 0
 
 end Driver.C03
